@@ -17,3 +17,7 @@ template frg::bitset<FRG_VERIF_BITS> frg::operator^(const frg::bitset<FRG_VERIF_
 template struct frg::array<int, 3>;
 template void frg::insertion_sort<int *, bool (*)(int, int)>(int *, int *, bool (*)(int, int));
 namespace wit { inline void use_rng() { frg::mt19937 a; a(); a.seed(1); frg::pcg_basic32 p(1); p(); p(7); } }
+namespace wit { inline auto use_concat() {
+	frg::array<int, 3> a{}; frg::array<int, 2> b{}; frg::array<int, 4> c{};
+	return frg::array_concat<int>(a, b, c);
+} }
